@@ -1,6 +1,7 @@
 """C06 — every literal form denotes its documented value; malformed forms are rejected."""
 import re
 from lib import *
+import sem
 
 LEVEL = "other"
 EXPLANATION = ("Static rules over the literal lexers: every `{integer}::from_str_radix` call only ever yields a value "
@@ -412,6 +413,26 @@ def rule_checked_conversions(E, R):
         R.check(ok, rule, fn, "hash count converted with try_into::<u8>()?, more than 255 -> error", where=h["span"])
 
 
+def _le_between(S, pc, a, fa, b, fb):
+    """the path condition certainly contains `a <= b`"""
+    for op, l, r, fr, certain in sem.weak_cmps(pc):
+        if certain and op == "Le" and S.same(l, fr, a, fa) and S.same(r, fr, b, fb):
+            return True
+    return False
+
+
+def _range_args(n):
+    """(start, end) expressions of a `a..=b` value (RangeInclusive::new call or struct literal)"""
+    n = strip(n)
+    if n.get("k") == "Call" and len(n.get("args", [])) == 2 and "RangeInclusive" in norm(n.get("ty", "")):
+        return n["args"][0], n["args"][1]
+    if n.get("k") == "Struct" and "RangeInclusive" in norm(n["res"].get("path", "") + n.get("ty", "")):
+        f = {x["name"]: x["e"] for x in n["fields"]}
+        if "start" in f and "end" in f:
+            return f["start"], f["end"]
+    return None
+
+
 def rule_range(E, R):
     rule = "R06-range"
     fn = "<rhs_types::int::IntRange as lex::Lex>::lex"
@@ -419,63 +440,60 @@ def rule_range(E, R):
     if not h:
         R.cannot(rule, fn, "anchor not found")
     else:
-        guard = False
-        for i in exprs(h["body"], "If", into_closures=False):
-            c = strip(i["cond"])
-            if c.get("k") == "Binary" and list(exprs(i["then"], "Ret")):
-                l, r = local_name(c["l"]), local_name(c["r"])
-                if (c["op"] == "Lt" and (l, r) == ("last", "first")) or (c["op"] == "Gt" and (l, r) == ("first", "last")):
-                    guard = True
-        R.check(guard, rule, fn, "reversed integer range rejected before construction (`last < first` -> Err)", where=h["span"])
-        # bounds come from i64::lex, first then last
-        st = [c for c in exprs(h["body"], "Struct") if "RangeInclusive" in c.get("ty", "") or "RangeInclusive" in norm(c["res"].get("path", ""))]
-        rng = [c for c in exprs(h["body"], ("Struct", "Call")) if "RangeInclusive<i64>" in c.get("ty", "")]
-        good = False
-        for c in rng:
-            if c["k"] == "Call" and len(c.get("args", [])) == 2:
-                good = (local_name(c["args"][0]), local_name(c["args"][1])) == ("first", "last")
-            elif c["k"] == "Struct":
-                f = {x["name"]: local_name(x["e"]) for x in c["fields"]}
-                good = (f.get("start"), f.get("end")) == ("first", "last")
+        S = sem.Sem(E, h)
+        rng = [x for x in S.sites() if x.node.get("k") in ("Struct", "Call") and "RangeInclusive<i64>" in norm(x.node.get("ty", "")) and _range_args(x.node)]
+        guard = bool(rng)
+        good = bool(rng)
+        for x in rng:
+            a_, b_ = _range_args(x.node)
+            guard = guard and _le_between(S, x.pc, a_, x.frame, b_, x.frame)
+            ba, bb = sem.provenance(S, a_, x.frame), sem.provenance(S, b_, x.frame)
+            la = [y for y in S.sites() if y.node.get("k") == "Call" and norm(y.node.get("callee", "")).endswith("Lex::lex") and
+                  norm(y.node.get("ty", "")).startswith("core::result::Result<(i64,")]
+            first_lex = [l_ for l_ in la if sem.passes_through(S, a_, x.frame, l_.node)]
+            # the end is a different value (a second literal, or the start again for a single number)
+            good = good and bool(first_lex) and first_lex[0] is la[0] and S.lookup(sem.peel(a_), x.frame) is not S.lookup(sem.peel(b_), x.frame)
+        R.check(guard, rule, fn, "reversed integer range rejected before construction (`last < first` -> Err)",
+                "the range must be built only where its start <= its end is known", h["span"])
         R.check(good, rule, fn, "range built as first..=last", where=h["span"])
     fn = "<rhs_types::ip::IpRange as lex::Lex>::lex"
     h = E.hir(fn)
     if not h:
         return R.cannot(rule, fn, "anchor not found")
+    S = sem.Sem(E, h)
+    UA = sem.enum_universe(E, "core::net::ip_addr::IpAddr") or ["IpAddr::V4", "IpAddr::V6"]
+    pA = lambda v: norm(v.node.get("ty", "")).replace("&", "").strip() == "core::net::ip_addr::IpAddr"
     found = 0
-    for m in find_matches(h["body"]):
-        fams = {}
-        wild_err = False
-        for a in m["arms"]:
-            p = a["pat"]
-            if p.get("k") == "PTuple" and len(p["pats"]) == 2:
-                v = [pat_variant(q) for q in p["pats"]]
-                if all(v):
-                    fam = tuple(last_seg(x) for x in v)
-                    guard_ok = False
-                    if "guard" in a:
-                        g = strip(a["guard"])
-                        guard_ok = g.get("k") == "Binary" and (
-                            (g["op"] == "Le" and (local_name(g["l"]), local_name(g["r"])) == ("first", "last")) or
-                            (g["op"] == "Ge" and (local_name(g["l"]), local_name(g["r"])) == ("last", "first")))
-                    built = [last_seg(norm(c.get("callee", ""))) for c in exprs(a["body"], "Call")
-                             if "ExplicitIpRange::" in norm(c.get("callee", ""))]
-                    fams[fam] = (guard_ok, tuple(built))
-            elif p.get("k") == "PWild":
-                wild_err = bool(explicit_err_returns(a["body"]))
-        if fams:
+    fams = {}
+    for x in S.sites():
+        n = x.node
+        if n.get("k") == "Call" and n.get("callee_kind", "").startswith("Ctor") and "ExplicitIpRange::" in norm(n.get("callee", "")):
             found += 1
-            want = {("V4", "V4"): (True, ("V4",)), ("V6", "V6"): (True, ("V6",))}
-            R.check(fams == want and wild_err, rule, fn,
-                    "explicit IP range: same family, first <= last, everything else rejected", "extracted %s wildcard->Err=%s" % (fams, wild_err), m["sp"])
-    R.floor(rule, "explicit IP range match", found, 1)
+            fam = last_seg(norm(n["callee"]))
+            ra = _range_args(n["args"][0]) if n.get("args") else None
+            adm = set()
+            for a_, pol in sem.is_literals(x.pc):
+                if pol and len(a_.scruts) == 2 and all(pA(v) for v in a_.scruts):
+                    adm = {tuple(last_seg(sem.variant_head(c)) for c in alt) for alt in a_.alts}
+            ordered = bool(ra) and _le_between(S, x.pc, ra[0], x.frame, ra[1], x.frame)
+            fams[fam] = (sorted(adm), ordered)
+    want = {"V4": ([("V4", "V4")], True), "V6": ([("V6", "V6")], True)}
+    errs = [x for x in S.sites() if x.node.get("k") == "Path" and (def_path(x.node) or "").endswith("LexErrorKind::IncompatibleRangeBounds")]
+    if found:
+        R.check(fams == want and bool(errs), rule, fn, "explicit IP range: same family, first <= last, everything else rejected",
+                "extracted %s, IncompatibleRangeBounds sites: %d" % (fams, len(errs)), h["span"])
+    R.floor(rule, "explicit IP range match", found, 2)
     # CIDR parsed by the cidr crate (host bits rejected there): the error is propagated
-    cs = list(calls(h["body"], r"IpCidr.*from_str$|FromStr>::from_str$|FromStr::from_str$"))
+    cs = [x for x in S.sites() if x.node.get("k") in ("Call", "MethodCall") and
+          re.search(r"IpCidr.*from_str$|FromStr>::from_str$|FromStr::from_str$", norm(x.node.get("resolved") or x.node.get("callee") or ""))]
+    ctor = [x for x in S.sites() if x.node.get("k") == "Call" and norm(x.node.get("callee", "")).endswith("IpRange::Cidr")]
     prop = False
     for c in cs:
-        for mm in exprs(h["body"], "MethodCall"):
-            if mm["m"] == "map_err" and strip(mm["recv"]) is c:
-                prop = True
+        for x in ctor:
+            if sem.passes_through(S, x.node["args"][0], x.frame, c.node):
+                ms = sem.provenance(S, x.node["args"][0], x.frame)[3]
+                swallow = [m_ for m_ in ms if m_ in ("unwrap", "expect", "unwrap_or", "unwrap_or_default", "unwrap_or_else", "ok", "unwrap_unchecked")]
+                prop = not swallow
     R.check(prop, rule, fn, "CIDR parse error (host bits set, bad length) is propagated as a parse error", where=h["span"])
 
 
